@@ -426,7 +426,7 @@ func rootOf(fn *ssa.Function) *ssa.Function {
 }
 
 func ruleExitsAudited(p *Prog, r *Report, rule, prop string, pkgs map[string]bool, floor int) {
-	r.rule(rule, "Early exits of functions that work by effect: in the planner, merger and session packages a function without results (also a closure) does its work by emitting commands, setting marks and rewriting lists; a `return` under a condition skips that work. Every such return is audited with its controlling conditions (tables/exits_audit.tsv, compared as multisets per function); a new early return is reported when it tests something the audited function does not test anywhere (tables/fn_conditions.tsv, regenerated with the fingerprints): `if c { body }` written as `if !c { return }; body` adds a return but no decision.")
+	r.rule(rule, "Early exits of functions that work by effect: in the planner, merger and session packages a function without results (also a closure) does its work by emitting commands, setting marks and rewriting lists; a `return` under a condition skips that work. Every such return is audited with its controlling conditions (tables/exits_audit.tsv, compared as multisets per function); a new early return is reported when it tests something the audited function does not test anywhere (tables/fn_conditions.tsv, regenerated with the fingerprints): `if c { body }` written as `if !c { return }; body` adds a return but no decision -- as long as the test does not stand in a loop and everything behind the return stood under that test before (tables/fn_cond_sites.tsv). In the same packages every early end of a loop (`break`, jump to the end of an enclosing loop; functions with results included) is audited with its controlling conditions (tables/breaks_audit.tsv): it skips the remaining passes.")
 	want := map[string][]string{}
 	why := map[string]string{}
 	for _, row := range readTable("exits_audit.tsv", 4) {
@@ -501,6 +501,7 @@ func ruleExitsAudited(p *Prog, r *Report, rule, prop string, pkgs map[string]boo
 		r.note(rule+": %d early return(s) test only what the audited function tests already (a respelling) or belong to a new function", respelled)
 	}
 	r.floor(rule, "early returns of effect functions", n, floor)
+	ruleBreaksAudited(p, r, rule, prop, pkgs)
 }
 
 // fnConditions: the tests a function makes (both polarities, loop conditions excluded),
